@@ -107,6 +107,10 @@ type c01Case struct {
 	NonPlain  bool
 	Classes   []string
 	Trigger   bool
+	// StallS > 0: the consumer of stdout stalls that long at offset 0 (pipe of
+	// 4 KiB), so the read of the file lasts longer than the reader's periodic
+	// housekeeping (truncation check every 3 s).
+	StallS float64
 }
 
 // genContent builds file content from byte-class segments.
@@ -371,6 +375,26 @@ func c01(r *vlib.Run) int {
 		c.NonPlain = rng.Intn(6) == 0
 		cases[i] = c
 	}
+	// long-running reads: a slow consumer keeps the read of a (compressed) file
+	// going for several seconds
+	nSlow := r.N(6, 48)
+	for k := 0; k < nSlow && k < len(cases); k++ {
+		c := cases[k*len(cases)/nSlow]
+		c.Trigger, c.NonPlain = false, false
+		c.Container = []string{".gz", ".zst", ".gzip", ""}[k%4]
+		c.M = 0
+		c.SSH = fleets[0] != nil && k%3 == 0
+		var b bytes.Buffer
+		for q := 0; q < 4000+137*k; q++ {
+			fmt.Fprintf(&b, "%06d slow consumer line the quick brown fox jumps over the lazy dog\n", q)
+		}
+		c.Content = b.Bytes()
+		if k%2 == 0 {
+			c.Content = bytes.TrimRight(c.Content, "\n")
+		}
+		c.Classes = []string{"slow-consumer", "numbered"}
+		c.StallS = 3.6
+	}
 	dir := r.Dir("c01files")
 	vlib.Parallel(n, 12, func(i int) {
 		c := cases[i]
@@ -394,9 +418,26 @@ func c01Run(r *vlib.Run, i int, c *c01Case, path string, fl *fleet, cfg string) 
 		args = append(args, "--plain")
 	}
 	var res *vlib.Result
-	if c.SSH {
+	switch {
+	case c.StallS > 0 && c.SSH:
+		full := append(fl.ClientArgs(), "--logger", "stdout", "--logLevel", "error")
+		var out []byte
+		res, out = runPaced(vlib.Cmd{Path: r.Bin("dcat"), Args: append(full, args...), Env: fl.ClientEnv(), Dir: fl.Home},
+			pacing{Kind: "stall", StallAt: 0, StallS: c.StallS}, 4096)
+		res.Stdout = out
+	case c.StallS > 0:
+		home := serverlessHome(r)
+		if cfg == "" {
+			cfg = "none"
+		}
+		full := append([]string{"--cfg", cfg, "--logger", "stdout", "--logLevel", "error"}, args...)
+		var out []byte
+		res, out = runPaced(vlib.Cmd{Path: r.Bin("dcat"), Args: full, Env: []string{"HOME=" + home}, Dir: home},
+			pacing{Kind: "stall", StallAt: 0, StallS: c.StallS}, 4096)
+		res.Stdout = out
+	case c.SSH:
 		res = runFleet(r, fl, "dcat", args, nil)
-	} else {
+	default:
 		res = runServerless(r, "dcat", args, cfg, nil)
 	}
 	var longLineWarn *regexp.Regexp
